@@ -275,7 +275,11 @@ func sentinelRuleX(c *core.Ctx, ruleID string, fns []*ssa.Function, exceptions m
 		}
 		seen[key+c.P.InstrPos(s.Call)] = true
 		n++
-		if why, ok := exceptions[fname(s.Fn)]; ok {
+		why, ok := exceptions[fname(s.Fn)]
+		if !ok {
+			why, ok = exceptions[fname(s.Fn)+"#"+firstAlt(s.Operand)]
+		}
+		if ok {
 			a.ok(key, s.Call, "frozen exception: "+why)
 			continue
 		}
